@@ -6,7 +6,7 @@
 (* the reference semantics.  (b) transitions predicted for the crossed     *)
 (* configuration (MemHost = "LE", Branch = "BE") are printed and replayed  *)
 (* through the crossed build of the library.                               *)
-(*   Scn: "fields" | "init" | "can" | "vss"                                *)
+(*   Scn: "fields" | "init" | "can" | "vss" | "strarr"                     *)
 (***************************************************************************)
 EXTENDS HostModel, Json, FiniteSets
 CONSTANTS Scn, XViews, MemHost, Branch
@@ -24,6 +24,7 @@ Jobs ==
     [] Scn = "init"   -> { [view |-> v, k |-> k] : v \in XViews \cap InitViews, k \in {1, 5, 6} }
     [] Scn = "can"    -> { [kind |-> kd, len |-> l, id |-> id, fd |-> fd, k |-> k] : kd \in {"full", "brief"}, l \in {0, 1, 3, 8, 13, 64},
                              id \in { V64(291), <<0,0,0,0,31,255,255,255>>, <<0,0,0,0,128,0,1,35>> }, fd \in {0, 1}, k \in {1, 5} }
+    [] Scn = "strarr" -> { [list |-> l] : l \in { << >>, << <<97>> >>, << <<97, 98, 0>>, << >>, <<99>> >>, << << >>, << >> >> } }
     [] Scn = "vss"    -> { [mode |-> md, dt |-> dt, c |-> c, p |-> p, k |-> k] : md \in {0, 1}, dt \in Types, c \in {0, 1, 3}, p \in {1, 2}, k \in {5} }
 
 HdrWithX(a, mode, dt) == SetSem(SetSem(a, 2, "Vss", "addr_mode", V64(mode)), 2, "Vss", "vss_datatype", V64(dt))
@@ -60,6 +61,11 @@ Next ==
           IN \/ st' = XR("putpath", a, a1, Zero64, X("putpath", path, 0) @@ [len |-> 0, bytes |-> << >>])
              \/ st' = XR("putdata", a1, a2, Zero64, X("putdata", val, 0) @@ [len |-> 0, bytes |-> << >>])
              \/ st' = XR("getdata", a2, a2, Zero64, X("getdata", << >>, 1) @@ [len |-> Len(val), bytes |-> XGetData(MemHost, Branch, a2, 2)])
+             \/ st' = XR("getpath", a2, a2, Zero64, X("getpath", << >>, 1) @@ [len |-> Len(path), bytes |-> XGetPath(MemHost, Branch, a2, 2)])
+             \/ st' = XR("calcpath", a2, a2, XPathLen(MemHost, Branch, a2, 2), X("calcpath", << >>, 0) @@ [len |-> 0, bytes |-> << >>])
+             \/ st' = XR("pad", a2, XPad(MemHost, Branch, a2, 2, total - 5), Zero64, X("pad", << >>, total - 5) @@ [len |-> 0, bytes |-> << >>])
+       [] Scn = "strarr" ->
+          st' = [op |-> "pack", list |-> job.list, blob |-> XPack(MemHost, Branch, job.list), count |-> Len(job.list), res |-> << >>, req |-> Len(job.list), withdest |-> 1]
 Spec == Init /\ [][Next]_vars2
 
 (***************************************************************************)
@@ -83,5 +89,9 @@ HostIndependence ==
               a == HdrWithX(Pat(job.k, total), job.mode, job.dt)
           IN /\ XPutData(host, host, XPutPath(host, host, a, 2, path), 2, val) = PutData(PutPath(a, 2, path), 2, val)
              /\ XGetData(host, host, PutData(PutPath(a, 2, path), 2, val), 2) = val
+             /\ XGetPath(host, host, PutPath(a, 2, path), 2) = path
+             /\ XPathLen(host, host, PutPath(a, 2, path), 2) = Len(PathWire(job.mode, path))
+             /\ XPad(host, host, a, 2, total - 5) = PadMsg(a, 2, total - 5)
+      [] Scn = "strarr" -> XPack(host, host, job.list) = Pack(job.list)
 Emit == st.op = "start" \/ PrintT(ToJson(st))
 =============================================================================
